@@ -172,7 +172,8 @@ pub fn run(args: &Args) -> i32 {
                         }
                         Err(f) => {
                             n += 1;
-                            report.violation(&f.sig, &f.what, json!({"engine":"exhaustive","kinds":name,"rows":rows,"choices": od.digits.iter().map(|d| d.0).collect::<Vec<_>>(),"detail":f.detail}));
+                            let loc = crate::quiet::take_last().map(|x| x.1);
+                            report.violation(&f.sig, &f.what, json!({"engine":"exhaustive","kinds":name,"rows":rows,"choices": od.digits.iter().map(|d| d.0).collect::<Vec<_>>(),"detail":f.detail,"panic_location":loc}));
                         }
                     }
                     if sigs.len() >= 1024 {
@@ -267,7 +268,8 @@ pub fn run(args: &Args) -> i32 {
                     }
                     Err(f) => {
                         report.case(None);
-                        report.violation(&f.sig, &f.what, json!({"engine":"random","seed":args.seed,"case":i,"kinds":seq_name(&kinds),"batches":nb,"pages":pages,"garbage":use_garbage,"detail":f.detail}));
+                        let loc = crate::quiet::take_last().map(|x| x.1);
+                        report.violation(&f.sig, &f.what, json!({"engine":"random","panic_location":loc,"seed":args.seed,"case":i,"kinds":seq_name(&kinds),"batches":nb,"pages":pages,"garbage":use_garbage,"detail":f.detail}));
                     }
                 }
             });
@@ -425,6 +427,15 @@ fn shape_to_arrow(s: &Shape, leaf_fsl: Option<i32>, garbage: &mut Option<&mut Rn
     (arr, field)
 }
 
+/// precondition of the known AllValidList defect, computed from the model: some list layer has neither
+/// nulls nor empty lists while definition levels exist (a null anywhere, or a null/empty list elsewhere)
+fn allvalid_list_with_defs(s: &Shape) -> bool {
+    let any_def = s.leaf_validity.as_ref().map(|v| v.iter().any(|x| !x)).unwrap_or(false)
+        || s.layers.iter().any(|l| l.validity.as_ref().map(|v| v.iter().any(|x| !x)).unwrap_or(false) || (l.kind == Kind::List && l.lens.iter().zip(l.validity.clone().unwrap_or(vec![true; l.lens.len()])).any(|(n, v)| v && *n == 0)));
+    let allvalid = s.layers.iter().any(|l| l.kind == Kind::List && l.n > 0 && l.validity.as_ref().map(|v| v.iter().all(|x| *x)).unwrap_or(true) && l.lens.iter().all(|n| *n > 0));
+    any_def && allvalid
+}
+
 fn cells(a: &dyn Array) -> Vec<Cell> {
     (0..a.len()).map(|i| cell_at(a, i)).collect()
 }
@@ -450,11 +461,17 @@ fn file_case(report: &Report, rt: &tokio::runtime::Runtime, seed: u64, i: u64) {
     let mut schema = None;
     let mut expected: Vec<Cell> = vec![];
     let mut any_special = false;
+    let mut known_pre = false;
+    let mut leaf_items = 0usize;
+    let mut leaf_has_validity = false;
     for _ in 0..nbatches {
         let s = build_shape(&kinds, &lim, &mut RandomChooser(&mut rng));
         if s.layers[0].n == 0 {
             continue;
         }
+        known_pre |= allvalid_list_with_defs(&s);
+        leaf_items += s.leaf_n;
+        leaf_has_validity |= s.leaf_validity.is_some() || s.layers.iter().any(|l| l.n == 0 && l.validity.is_some());
         let mut g = if use_garbage { Some(&mut grng) } else { None };
         let (arr, field) = shape_to_arrow(&s, leaf_fsl, &mut g, &meta);
         let field = field.with_name("col");
@@ -476,7 +493,7 @@ fn file_case(report: &Report, rt: &tokio::runtime::Runtime, seed: u64, i: u64) {
     let nrows = expected.len();
     let max_page = if rng.chance(1, 3) { Some(*rng.pick(&[4096u64, 65536])) } else { None };
     let kinds_s = seq_name(&kinds);
-    let ctx = json!({"engine":"file","seed":seed,"case":i,"kinds":kinds_s,"structural":structural,"leaf_fsl":leaf_fsl,"rows":nrows,"garbage":use_garbage,"max_page_bytes":max_page});
+    let ctx = json!({"engine":"file","seed":seed,"case":i,"allvalid_list_with_def_levels":known_pre,"kinds":kinds_s,"structural":structural,"leaf_fsl":leaf_fsl,"rows":nrows,"garbage":use_garbage,"max_page_bytes":max_page});
     let res: Result<(Vec<Vec<String>>, Vec<(String, Vec<u32>, Vec<Cell>)>), String> = crate::quiet::catch(|| rt.block_on(async {
         let f = fileio::write_file(&batches, schema.clone(), LanceFileVersion::V2_1, max_page, &format!("c27-{i}")).await?;
         let r = fileio::open(&f).await?;
@@ -506,11 +523,28 @@ fn file_case(report: &Report, rt: &tokio::runtime::Runtime, seed: u64, i: u64) {
         let (m, l) = crate::quiet::take_repo_panic().unwrap_or((m, l));
         Err(format!("PANIC at {l}: {m}"))
     });
+    let res = match res {
+        Err(e) if !e.contains("PANIC at ") => match crate::quiet::take_repo_panic() {
+            Some((m, l)) => Err(format!("{e}; PANIC at {l}: {m}")),
+            None => Err(e),
+        },
+        other => {
+            let _ = crate::quiet::take_repo_panic();
+            other
+        }
+    };
     match res {
         Err(e) => {
             // a failure to write/read an accepted nested array is a refutation of "reproduces the same structure"
             report.case(None);
             let cls = if let Some(p) = e.find("PANIC at ") { let l = &e[p + 9..]; format!("panic-{}", l.split(':').take(2).collect::<Vec<_>>().join(":").rsplit('/').next().unwrap_or("").to_string()) } else { format!("{kinds_s}-{structural}") };
+            let cls = if leaf_items == 0 && leaf_has_validity {
+                format!("zero-item-page-with-leaf-validity-{cls}")
+            } else if known_pre && !cls.starts_with("panic-primitive.rs") {
+                format!("allvalidlist-with-def-levels-{cls}")
+            } else {
+                cls
+            };
             report.violation(&format!("file-error-{cls}"), "lance-file write / read of a nested list column failed", {
                 let mut c = ctx.clone();
                 c["error"] = json!(e);
@@ -540,7 +574,8 @@ fn file_case(report: &Report, rt: &tokio::runtime::Runtime, seed: u64, i: u64) {
                     c["got"] = json!(got.get(pos).map(|c| c.render()));
                     c["n_expected"] = json!(want.len());
                     c["n_got"] = json!(got.len());
-                    report.violation(&format!("file-{kind}-{cls}-{layout}"), "random access / scan of a nested list column returned other items than the requested rows hold", c);
+                    let pre = if known_pre { "allvalidlist-with-def-levels-" } else { "" };
+                    report.violation(&format!("file-{pre}{kind}-{cls}-{layout}"), "random access / scan of a nested list column returned other items than the requested rows hold", c);
                     break;
                 }
             }
